@@ -39,8 +39,9 @@ def _container_filter(c18):
     def f(pid, d):
         cl = d.get("class", "")
         is18 = cl.startswith(c18_markers)
-        # a writer/reader contract failure without a fault is a round-trip failure too: report it to both
-        if cl.startswith("container.write:"):
+        # a writer/reader contract failure without a fault is a round-trip failure too, and a truncated
+        # container that yields a partial set without an error is both a C17 and a C18 matter: report to both
+        if cl.startswith(("container.write:", "container.truncated", "container.concurrent")):
             return True
         return is18 if c18 else not is18
     return f
